@@ -162,6 +162,12 @@ type Perturb struct {
 	tokenPtr atomic.Pointer[int32]
 	Stuck    bool
 	StuckWhy string
+	// latest batch announcement (hook H4): tasks annFirst+1 .. annFirst+annN
+	annMu    sync.Mutex
+	annFirst int32
+	annN     int
+	annSeq   int
+	Batches  int
 }
 
 // FaultFired tells whether the injected fault was raised
@@ -219,15 +225,27 @@ func (p *Perturb) hook(side int, id int32, step int, token *int32) {
 	}
 }
 
-// Run executes f with the perturbing hook installed. A watcher declares the protocol dead when every
-// task that has not exited sits in the wait loop while the shared counter has not changed for 3 s, and then
-// pumps the cancel value so that the API call can return.
+// Run executes f with the perturbing hook installed. A watcher declares the protocol dead on a LOGICAL certificate, not on a
+// clock: the current batch has been announced (hook H4), every announced task has registered, every task still alive sits in
+// the wait loop, the shared counter is not the cancel value and equals id-1 of no live task - then nobody can ever change the
+// counter again. The certificate must hold on 5 consecutive identical samples (the sampling itself is not atomic; the counter
+// only moves forward, so a stale sample cannot repeat). It then pumps the cancel value so that the API call can return.
+// On a tree without the batch hook the old rule applies (state unchanged for 3 s).
 func (p *Perturb) Run(f func()) []Event {
 	kio.SetVerifStepHook(p.hook)
 	defer kio.SetVerifStepHook(nil)
+	kio.SetVerifBatchHook(func(side int, firstID int32, n int, token *int32) {
+		p.annMu.Lock()
+		p.annFirst, p.annN = firstID, n
+		p.annSeq++
+		p.Batches++
+		p.annMu.Unlock()
+	})
+	defer kio.SetVerifBatchHook(nil)
 	fdone := make(chan struct{})
 	go func() {
-		var lastTok int32 = -12345
+		var lastSig string
+		same := 0
 		var since time.Time
 		for {
 			select {
@@ -239,33 +257,65 @@ func (p *Perturb) Run(f func()) []Event {
 			if tp == nil {
 				continue
 			}
-			tok := atomic.LoadInt32(tp)
-			live, spinning := 0, 0
-			p.last.Range(func(k, v any) bool {
-				st := atomic.LoadInt32(v.(*int32))
-				if st != int32(kio.VerifExit) {
-					live++
-					if st == int32(kio.VerifSpin) || st == int32(kio.VerifWaitEnter) {
-						spinning++
-					}
-				}
-				return true
-			})
 			if p.Stuck {
 				atomic.StoreInt32(tp, Cancel)
 				continue
 			}
-			if live > 0 && live == spinning && tok == lastTok {
-				if since.IsZero() {
-					since = time.Now()
-				} else if time.Since(since) > 3*time.Second {
-					p.Stuck = true
-					p.StuckWhy = fmt.Sprintf("%d tasks spin on counter=%d which has not changed for 3 s and no other task is alive", live, tok)
+			tok := atomic.LoadInt32(tp)
+			p.annMu.Lock()
+			first, n, seq := p.annFirst, p.annN, p.annSeq
+			p.annMu.Unlock()
+			live, spinning, canGo := 0, 0, false
+			reg := map[int32]bool{}
+			sig := fmt.Sprintf("%d|%d|", tok, seq)
+			p.last.Range(func(k, v any) bool {
+				id := k.(int32)
+				st := atomic.LoadInt32(v.(*int32))
+				reg[id] = true
+				if st != int32(kio.VerifExit) {
+					live++
+					sig += fmt.Sprintf("%d:%d,", id, st)
+					if st == int32(kio.VerifSpin) || st == int32(kio.VerifWaitEnter) {
+						spinning++
+					}
+					if id == tok+1 {
+						canGo = true
+					}
 				}
-			} else {
-				since = time.Time{}
+				return true
+			})
+			if seq == 0 {
+				// no batch hook in this tree: legacy rule
+				if live > 0 && live == spinning && sig == lastSig {
+					if since.IsZero() {
+						since = time.Now()
+					} else if time.Since(since) > 3*time.Second {
+						p.Stuck = true
+						p.StuckWhy = fmt.Sprintf("%d tasks spin on counter=%d which has not changed for 3 s and no other task is alive", live, tok)
+					}
+				} else {
+					since = time.Time{}
+				}
+				lastSig = sig
+				continue
 			}
-			lastTok = tok
+			allReg := true
+			for i := 1; i <= n; i++ {
+				if !reg[first+int32(i)] {
+					allReg = false
+				}
+			}
+			dead := allReg && live > 0 && live == spinning && tok != Cancel && !canGo
+			if dead && sig == lastSig {
+				same++
+			} else {
+				same = 0
+			}
+			lastSig = sig
+			if dead && same >= 5 {
+				p.Stuck = true
+				p.StuckWhy = fmt.Sprintf("all %d tasks of the announced batch (%d..%d) have started, the %d still alive sit in the wait loop, counter=%d is not the cancel value and equals id-1 of none of them", n, first+1, first+int32(n), live, tok)
+			}
 		}
 	}()
 	f()
